@@ -561,10 +561,50 @@ def check_entry_points(F, rep):
     rep.ob("SER-2", "one alpha key", allk == {"alpha"}, "key literals on the writer and reader side: %s" % sorted(allk))
 
 
+from .c18 import components, self_adt_of
+
+
+def check_equality_cover(F, rep):
+    """EQ-COVER: "deserializes to an equal colour" is only as strong as `==`: PartialEq::eq of every colour type, Alpha and PreAlpha compares
+    *every* component of self with the same-named component of other and joins the comparisons with `&&` only (a component left out, or
+    compared with another one, makes different colours equal)."""
+    n = 0
+    for b in F.bodies:
+        im = b["_impl"]
+        if im is None or b["name"] != "eq" or not (im.get("trait") or "").endswith("cmp::PartialEq") or "::test" in b["path"] or im.get("derived"):
+            continue
+        if not b["file"].endswith(("macros/equality.rs", "alpha/alpha.rs", "blend/pre_alpha.rs")):
+            continue
+        if im["trait_args_s"] and im["trait_args_s"][0] != im["self_s"]:
+            continue
+        adt = self_adt_of(F, b)
+        comps = components(F, adt)
+        if not comps:
+            continue
+        n += 1
+        params = [p_.get("n") for p_ in b.get("params", [])]
+        mine, theirs, other_ops = [], [], []
+        for node, parents in facts.walk(b["body"]):
+            if node.get("k") == "field" and node["e"].get("k") == "path" and isinstance(node["e"].get("res"), dict):
+                who = node["e"]["res"].get("n")
+                (mine if who == params[0] else theirs if len(params) > 1 and who == params[1] else other_ops).append(node["n"])
+            if node.get("k") == "bin" and node.get("op") not in ("==", "&&"):
+                other_ops.append(node.get("op"))
+            if node.get("k") in ("if", "match", "ret", "un") and not node.get("exp"):
+                if not (node.get("k") == "un" and node.get("op") == "*"):
+                    other_ops.append("<%s>" % node["k"])
+        # pairing: the i-th projection of self is compared with the i-th of other
+        ok = sorted(mine) == sorted(comps) and mine == theirs and not other_ops
+        rep.ob("EQ-COVER", "eq[%s]" % im["self_s"], ok, "compares self.%s with other.%s%s (components: %s)" % (mine, theirs, (" and uses " + str(other_ops)) if other_ops else "", comps),
+               F.loc(b), nontrivial=False)
+    rep.floor("PartialEq impls of colour types", n, 29)
+
+
 def run(F, rep, tier="quick", extra=None, only=None):
     rep.trusted += ["rustc name resolution / type check; derive expansions as seen in HIR", "serde's data model contract and derive semantics; JSON/RON crates"]
     check_derived(F, rep)
     check_serializer(F, rep)
     check_deserializer(F, rep)
     check_entry_points(F, rep)
+    check_equality_cover(F, rep)
     return {"level": "other", "explanation": EXPLANATION}
